@@ -1,3 +1,240 @@
 package main
 
-func runSelftest() int { return 0 }
+import (
+	"encoding/json"
+	"fmt"
+	"math"
+	"math/rand"
+	"os"
+	"path/filepath"
+	"strings"
+	"sync"
+	"time"
+
+	"verif/engine/gosx"
+)
+
+// runSelftest validates the translator:
+//  1. every term-rewrite rule the engine applies is discharged as a lemma by the solver (raw encoding vs normal form);
+//  2. the concrete float→int and append-growth models agree with the native compiler/runtime;
+//  3. differential runs: the repository's own test inputs and generated programs on random concrete inputs are pushed
+//     through the native build and through the engine, and the observable results must be identical.
+func runSelftest() int {
+	t0 := time.Now()
+	fails := 0
+	report := map[string]interface{}{}
+	// ---- 1. rewrite lemmas
+	lem := gosx.RewriteLemmas()
+	var mu sync.Mutex
+	results := map[string]string{}
+	bad := 0
+	parallel(len(lem), 16, func(i int) {
+		l := lem[i]
+		verdict := gosx.CheckLemma(l)
+		mu.Lock()
+		results[l.Name] = verdict
+		if verdict != "unsat" {
+			bad++
+			fmt.Printf("SELFTEST rewrite lemma %s: %s\n", l.Name, verdict)
+		}
+		mu.Unlock()
+	})
+	report["rewrite_lemmas"] = len(lem)
+	report["rewrite_lemmas_failed"] = bad
+	fails += bad
+	// ---- 2. native agreement of concrete models
+	n2, bad2 := gosx.SelftestConcreteModels()
+	report["concrete_model_cases"] = n2
+	report["concrete_model_mismatches"] = len(bad2)
+	for _, b := range bad2 {
+		fmt.Println("SELFTEST concrete model:", b)
+	}
+	fails += len(bad2)
+	// ---- 3. differential runs
+	c := newCtx("SELFTEST", "quick", 1, "other", nil)
+	defer c.Close()
+	c.Eng.MaxSteps = 3_000_000
+	type cmp struct {
+		name, src, entry string
+		params          []Param
+		results         []string
+		strlen          map[string]int
+		vec             gosx.Model
+	}
+	var cases []cmp
+	for i, s := range testTableSnippets() {
+		cases = append(cases, cmp{name: fmt.Sprintf("testtable%d", i), src: s})
+	}
+	rng := rand.New(rand.NewSource(7))
+	addProgs := func(ps []*Prog, n int) {
+		step := 1
+		if len(ps) > n {
+			step = len(ps) / n
+		}
+		for i := 0; i < len(ps); i += step {
+			p := ps[i]
+			if p.Files != nil {
+				continue
+			}
+			for rep := 0; rep < 2; rep++ {
+				vec := gosx.Model{}
+				for _, pa := range p.Params {
+					switch pa.Type {
+					case "string":
+						for k := 0; k < p.StrLen[pa.Name]; k++ {
+							vec[fmt.Sprintf("%s_%d", pa.Name, k)] = uint64([]byte{0x61, 0xc3, 0xa9, 0xff, 0x20, 0xe4, 0xb8, 0x96}[rng.Intn(8)])
+						}
+					case "float64":
+						vec[pa.Name] = math.Float64bits([]float64{0, 1.5, -2.25, 1e21, -0.0, 3}[rng.Intn(6)])
+					case "bool":
+						vec[pa.Name] = uint64(rng.Intn(2))
+					default:
+						vec[pa.Name] = []uint64{0, 1, 2, 3, 5, 7, 200, 255, 0x7fffffff, 0x80000000, 0xffffffff, 0xfffffffe}[rng.Intn(12)]
+					}
+				}
+				cases = append(cases, cmp{name: p.ID, src: p.Src, entry: p.Entry, params: p.Params, results: p.Results, strlen: p.StrLen, vec: vec})
+			}
+		}
+	}
+	addProgs(typedOpProgs(), 60)
+	addProgs(genC05("quick", 1), 80)
+	addProgs(genC06("quick", 1), 60)
+	addProgs(genC13("quick"), 60)
+	addProgs(genStmtProgs(), 40)
+	var sc []*Prog
+	for i := 0; i < 25; i++ {
+		sc = append(sc, genScopeProg(i, 900000+int64(i)), genCallProg(i, 900000+int64(i)), genSliceProg(i, 900000+int64(i), 4, false), genMapProg(i, 900000+int64(i), 3), genComposite(i, 900000+int64(i)))
+	}
+	addProgs(sc, 200)
+	mism := 0
+	skipped := 0
+	var smu sync.Mutex
+	parallel(len(cases), 16, func(i int) {
+		cs := cases[i]
+		p := &Prog{ID: cs.name, Src: cs.src, Entry: cs.entry, Params: cs.params, Results: cs.results, StrLen: cs.strlen}
+		// native
+		var args []map[string]interface{}
+		for _, pa := range cs.params {
+			_, a := concreteArg(pa, cs.vec, cs.strlen)
+			args = append(args, a)
+		}
+		entry := ""
+		if cs.entry != "" {
+			entry = "main." + cs.entry
+		}
+		var gr nativeProgResp
+		req := map[string]interface{}{"Op": "prog", "Prog": map[string]interface{}{"Src": cs.src, "Entry": entry, "NRes": len(cs.results), "Args": args, "Mode": 0}}
+		native := ""
+		if out, err := c.Native.RunOnce(req, &gr, 20); err != nil {
+			native = "HOST-CRASH"
+			_ = out
+		} else {
+			gr.fix()
+			native = nativeSummary(&gr)
+		}
+		// engine, inputs pinned to the vector
+		got := ""
+		unsup := false
+		rep := c.Eng.ExploreWith(func(ex *gosx.Exec) {
+			ex.InitPackage(c.Eng.Pkg)
+			goatArgs, _, in := c.mkInputs(ex, p)
+			tt := ex.TT()
+			for name, t := range in {
+				ex.Assume(pinTo(tt, t, cs.vec[name]))
+			}
+			res, pan := ex.Call(ex.Func("verifEvalCall"), cs.src, entry, uint64(len(cs.results)), gosx.MkSlice(goatArgs...), uint64(0))
+			if pan != nil {
+				got = "HOST-CRASH"
+				return
+			}
+			o := c.decodeOutcome(ex, res)
+			m := ex.Model()
+			switch {
+			case o.hasEvalErr:
+				got = "EVAL-ERROR"
+			default:
+				got = "out=" + fmt.Sprintf("%q", renderSegs(ex.OutGoat, m))
+				if o.hasCallErr {
+					got += " ERROR"
+				} else {
+					for k, r := range o.rets {
+						s, _ := ex.Call(ex.Func("verifValueString"), r)
+						tag, _ := ex.Field(r, c.Eng.TypeOf("Value"), "t").(uint64)
+						got += fmt.Sprintf(" ret%d=%s:%s", k, tagName(int(tag)), renderSegs(gosx.StrSegs(s), m))
+					}
+				}
+			}
+		}, "z3", 1)
+		if rep.ByEnd["unsupported"] > 0 || rep.ByEnd["unwind"] > 0 {
+			unsup = true
+		}
+		smu.Lock()
+		defer smu.Unlock()
+		if unsup {
+			skipped++
+			return
+		}
+		if rep.Paths != 1 && got != "" {
+			// pinned inputs must give exactly one path
+			fmt.Printf("SELFTEST differential %s: %d paths for pinned inputs\n", cs.name, rep.Paths)
+		}
+		if got != native && !(strings.Contains(cs.src, "rand.") || strings.Contains(cs.src, "time.") || strings.Contains(cs.src, "os.")) {
+			if mapOrderOnly(got, native) {
+				skipped++
+				return
+			}
+			mism++
+			if mism <= 10 {
+				fmt.Printf("SELFTEST differential mismatch %s vec=%v\n  engine: %s\n  native: %s\n  src: %s\n", cs.name, cs.vec, truncate(got, 300), truncate(native, 300), truncate(cs.src, 300))
+			}
+		}
+	})
+	report["differential_cases"] = len(cases)
+	report["differential_mismatches"] = mism
+	report["differential_skipped_unsupported_or_map_order"] = skipped
+	fails += mism
+	report["wall_s"] = time.Since(t0).Seconds()
+	b, _ := json.MarshalIndent(report, "", " ")
+	os.MkdirAll(filepath.Join(verifDir, "evidence"), 0o755)
+	os.WriteFile(filepath.Join(verifDir, "evidence", "selftest.json"), b, 0o644)
+	fmt.Println(string(b))
+	if fails > 0 {
+		fmt.Printf("SELFTEST FAILED: %d problems\n", fails)
+		return 1
+	}
+	fmt.Println("SELFTEST ok")
+	return 0
+}
+
+func nativeSummary(gr *nativeProgResp) string {
+	switch {
+	case gr.HostPanic != "":
+		return "HOST-CRASH"
+	case gr.EvalErr != "":
+		return "EVAL-ERROR"
+	}
+	s := "out=" + fmt.Sprintf("%q", gr.Out)
+	if gr.CallErr != "" {
+		return s + " ERROR"
+	}
+	for i, r := range gr.Rets {
+		s += fmt.Sprintf(" ret%d=%s:%s", i, tagName(r.T), r.Str)
+	}
+	return s
+}
+
+// mapOrderOnly reports whether two results differ only by the order of map entries in a rendering.
+func mapOrderOnly(a, b string) bool {
+	if !strings.Contains(a, "map[") || len(a) != len(b) {
+		return false
+	}
+	sortRunes := func(s string) string {
+		f := strings.FieldsFunc(s, func(r rune) bool { return r == ' ' || r == '[' || r == ']' })
+		m := map[string]int{}
+		for _, x := range f {
+			m[x]++
+		}
+		return fmt.Sprint(m)
+	}
+	return sortRunes(a) == sortRunes(b)
+}
